@@ -4,14 +4,15 @@
 //   -DC04_PUBLIC_API   : tapkee::with((method = Isomap, ...)).withDistance(cb).embedUsing(idx)   (thorough tier)
 // The eigen observer (hook 3, TAPKEE_VERIF) captures the matrix handed to the eigensolver.
 //
-// The neighbour lists are OBSERVED from inside embed(): the distance callback records every query; the brute-force
-// search makes complete row-major sweeps of N*N queries (one sweep per round of the connectivity doubling), every
-// later query (u, w) comes from the relax loop, which asks for exactly the edges u -> neighbors[u][i] (row u of the
-// Dijkstra settles u first and then queries all of its list).  So rounds = number of sweeps and the edge set = the
-// queries after the sweeps; nothing is recomputed with settings of the harness's own.
+// The neighbour lists are OBSERVED from inside embed(): the distance callback records every query (by value of the
+// caller's index vector, which may be permuted / offset: `idx=`).  A neighbour-search round asks for every ordered pair
+// once, in any order (self pair optional); every later query (u, w) comes from the relax loop, which asks for exactly
+// the edges u -> neighbors[u][i] (row u of the Dijkstra settles u first and then queries all of its list).  So
+// rounds = number of complete pair covers and the edge set = the queries after them; nothing is recomputed with
+// settings of the harness's own.
 //
-// in : iso N=8 k=3 d=2 w=<distance matrix> [eig=dense|randomized] [cc=0|1]
-// out: nb=<observed lists, sorted> rounds=<sweeps> then  calls=1 pre=<matrix handed to the eigensolver> ev=<eigenvalues>
+// in : iso N=8 k=3 d=2 w=<distance matrix> [eig=dense|randomized] [cc=0|1] [idx=<values of the index vector>]
+// out: nb=<observed lists, sorted> rounds=<rounds> shape=ok|<what was not recognised> then  calls=1 pre=<matrix handed to the eigensolver> ev=<eigenvalues>
 //      Y=<embedding rows>   or   throw=<exception text>
 #ifdef C04_PUBLIC_API
 #include <tapkee/tapkee.hpp>
@@ -59,26 +60,46 @@ struct recording_distance
     }
 };
 
-// split the query log into complete brute-force sweeps and the relax loop's edge queries
-static void observed_lists(const query_log& log, IndexType N, Neighbors& nb, int& rounds)
+// Split the query log (positions) into neighbour-search rounds and the relax loop's edge queries, without depending on
+// the order in which a round asks its questions: a round is a stretch of queries without a repeated ordered pair that
+// covers every ordered pair (i, j), i != j (the self pair (i, i) is optional); the stretch ends at the first repeated
+// pair.  The first stretch that is not such a round starts the relax loop, whose queries are exactly edges.
+// `shape` = "ok" or a description of what was not recognised (reported as a broken observation, not a failing input).
+static void observed_lists(const std::vector<std::pair<int, int>>& q, IndexType N, Neighbors& nb, int& rounds,
+                           std::string& shape)
 {
     size_t pos = 0;
     rounds = 0;
-    const size_t sweep = (size_t)N * (size_t)N;
-    while (pos + sweep <= log.q.size())
+    shape = "ok";
+    const size_t need = (size_t)N * (size_t)(N - 1);
+    while (pos < q.size())
     {
-        bool is_sweep = true;
-        for (size_t t = 0; t < sweep && is_sweep; t++)
-            is_sweep = log.q[pos + t].first == (int)(t / N) && log.q[pos + t].second == (int)(t % N);
-        if (!is_sweep)
+        std::set<std::pair<int, int>> seen;
+        size_t offdiag = 0, t = pos;
+        for (; t < q.size(); t++)
+        {
+            if (q[t].first < 0 || q[t].second < 0)
+                break;
+            if (!seen.insert(q[t]).second)
+                break;
+            if (q[t].first != q[t].second)
+                offdiag++;
+        }
+        if (offdiag != need)
             break;
-        pos += sweep;
         rounds++;
+        pos = t;
     }
     std::vector<std::set<IndexType>> sets(N);
-    for (; pos < log.q.size(); pos++)
-        if (log.q[pos].first >= 0 && log.q[pos].first < N)
-            sets[log.q[pos].first].insert(log.q[pos].second);
+    for (; pos < q.size(); pos++)
+    {
+        if (q[pos].first < 0 || q[pos].second < 0)
+        {
+            shape = "query-outside-the-index-range";
+            continue;
+        }
+        sets[q[pos].first].insert(q[pos].second);
+    }
     nb.clear();
     for (IndexType u = 0; u < N; u++)
         nb.push_back(LocalNeighbors(sets[u].begin(), sets[u].end()));
@@ -92,11 +113,10 @@ static std::string run_iso(std::map<std::string, std::string>& f)
     DenseMatrix W = parse_matrix(f["w"]);
     bool cc = f.count("cc") ? f["cc"] == "1" : false;
     EigenMethod em = (f.count("eig") && f["eig"] == "randomized") ? Randomized : Dense;
-    std::vector<IndexType> idx(N);
-    for (IndexType i = 0; i < N; i++)
-        idx[i] = i;
+    std::vector<IndexType> idx = parse_idx(f, N);
+    DenseMatrix Wv = by_value(W, idx);
     query_log log;
-    recording_distance dcb{&W, &log};
+    recording_distance dcb{&Wv, &log};
     g_calls = 0;
     g_seen.resize(0, 0);
     verif_eigen_observer::get() = observer;
@@ -139,8 +159,17 @@ static std::string run_iso(std::map<std::string, std::string>& f)
     verif_eigen_observer::get() = NULL;
     Neighbors nb;
     int rounds = 0;
-    observed_lists(log, N, nb, rounds);
-    o << "nb=" << show_lists(nb) << " rounds=" << rounds;
+    std::string shape;
+    // queries are recorded by VALUE; translate to positions
+    std::vector<int> pos_of(Wv.rows(), -1);
+    for (IndexType i = 0; i < N; i++)
+        pos_of[idx[i]] = i;
+    std::vector<std::pair<int, int>> qpos;
+    for (auto& pr : log.q)
+        qpos.push_back(std::make_pair(pr.first >= 0 && pr.first < (int)pos_of.size() ? pos_of[pr.first] : -1,
+                                      pr.second >= 0 && pr.second < (int)pos_of.size() ? pos_of[pr.second] : -1));
+    observed_lists(qpos, N, nb, rounds, shape);
+    o << "nb=" << show_lists(nb) << " rounds=" << rounds << " shape=" << shape;
     if (!thrown.empty())
         o << " throw=" << thrown;
     else
